@@ -428,9 +428,12 @@ func cmdCheck(args []string) int {
 			cases := []nativeCase{{Harness: h.Fn, Params: params, Inputs: v.Inputs}}
 			// order/schedule dependent candidates: Go re-randomises map iteration per run, so the same
 			// inputs are replayed several times in one native process and any reproduction counts
-			tries := 1
-			if t, ok := params["replay_tries"]; ok && t > 1 {
+			tries := 12
+			if t, ok := params["replay_tries"]; ok && t >= 1 {
 				tries = t
+			}
+			if strings.HasPrefix(v.Label, "panic@") {
+				tries = 3
 			}
 			many := cases
 			for k := 1; k < tries; k++ {
